@@ -131,7 +131,9 @@ CLAIMED = {
         "reference promise written from the statement; states, values and per-promise callback "
         "sequences are compared after every operation. One run in four monitors the same "
         "invariants on every promise the real scheduler creates while running a generated program "
-        "under a seeded completion schedule.",
+        "under a seeded completion schedule. Half of the histories allow re-entrant handlers "
+        "(settling or registering from inside a callback, also on the notifying promise itself, "
+        "in bursts of several waiting callbacks).",
         "Single-threaded; the reference promise is trusted.", "DESIGN.md §4 C13"),
     "C24": (
         "modelsim", "exploration",
@@ -161,7 +163,9 @@ CLAIMED = {
         "Programs with one failing leaf at any depth executed 2-3 times on one backend: run raises "
         "the leaf's (type, message), the failing chain is recorded FAILED with ErrorValue call "
         "nodes and end times, nothing is handed off after the root is rejected, and the failing "
-        "function runs again in every later execution.",
+        "function runs again in every later execution. One case in four is a targeted family: a "
+        "parent fails through one child while its other children still wait for (cached) "
+        "argument chains and meet equal jobs elsewhere; run must raise an error a task raised.",
         SIM_NOTE, "DESIGN.md §4 C12"),
     "C30": (
         "modelsim", "exploration",
@@ -219,7 +223,8 @@ CLAIMED = {
         "value hashes (environment nondeterminism, no schedule)",
         "Batches of 400 generated values are rebuilt in 3 fresh interpreter processes with "
         "different hash seeds and set insertion orders; all nodes must compute the same "
-        "TypeRegistry hash.",
+        "TypeRegistry hash, the same recorded (serialized) hash, and the same eval/args hashes "
+        "for calls taking the value by position, in variadic positions and by keyword.",
         "Thinnest use of the technique: the nondeterminism is the interpreter's hash seed.",
         "DESIGN.md §4 C16"),
     "C21": (
@@ -252,14 +257,16 @@ CLAIMED = {
         "deterministic simulation: seeded schedules, option dict observed at executor hand-off "
         "checked against the reference interpreter's precedence model",
         "Job trees with marker options at definition / export / call level (both chaining orders, "
-        "expression-valued options, prov=False, run(cache=False)); the options each job is handed "
-        "off with must be among those the reference computes for that (task, arguments).",
+        "expression-valued options, prov=False, run(cache=False), the cache scope itself as an "
+        "option at all three levels); the options and the cache scope each job is handed off "
+        "with must be among those the reference computes for that (task, arguments).",
         SIM_NOTE + " Schedule dimension incidental.", "DESIGN.md §4 C27"),
     "C28": (
         "histsim", "exploration",
         "deterministic simulation: backend histories (incl. a crashed execution), dry run, then a "
         "real run on a copy of the backend; zero hand-off / zero execution monitors",
-        "On empty, fully cached, partially cached (killed execution) and edited backends a dry "
+        "On empty, fully cached, partially cached (killed execution) and edited backends (programs "
+        "include jobs that record no provenance and handle-passing workflows) a dry "
         "run must hand nothing to executors and call no task function; if it completes the real "
         "run returns the same, if it stops early the real run executes at least one function.",
         SIM_NOTE, "DESIGN.md §4 C28"),
@@ -267,7 +274,8 @@ CLAIMED = {
         "procsim", "exploration",
         "scheduler node and worker nodes exchanging scratch files; seeded element order, retries "
         "and stale files; results compared with local calls",
-        "Jobs are prepared in single and array form with the real scratch helpers, worker nodes "
+        "Jobs are prepared in single and array form with the real scratch helpers (arrays also as "
+        "grouped by the real JobArrayer from interleaved jobs of same-named tasks), worker nodes "
         "run the real oneshot entry point in a seeded order (some twice), results and errors read "
         "back must equal a local call, elements must only touch their own files, job names must "
         "round-trip their hashes, and the real gather_inflight_jobs fed with a fake in-flight "
@@ -277,7 +285,8 @@ CLAIMED = {
         "histsim", "exploration",
         "databases produced by simulated executions incl. one killed at a seeded commit; status "
         "filters compared with displayed statuses",
-        "On databases with RUNNING (left by a crash), CACHED, FAILED, CSE-failed and DONE jobs the "
+        "On databases with RUNNING (left by a crash), CACHED, FAILED, CSE-failed and DONE jobs, "
+        "written under a fine or a coarse (16 ms / 1 s) simulated clock, the "
         "result of every job / execution status filter must equal the set of rows displaying "
         "that status.",
         SIM_NOTE, "DESIGN.md §4 C33"),
@@ -288,7 +297,9 @@ CLAIMED = {
         "Programs with sub-expressions wrapped in subrun (thread/process executor, new or extended "
         "execution, cache options), executed twice; outcome must equal the reference "
         "interpreter's, sub-jobs must hang under the calling job when the execution is extended, "
-        "and the subrun task must never be served from the single-reduction cache.",
+        "and the subrun task must never be served from the single-reduction cache. A targeted "
+        "family compares sibling subruns with direct evaluation over edit histories, including "
+        "runs with caching off after the state the tasks read outside the workflow changed.",
         SIM_NOTE + " Parent/child loops are not interleaved with each other.", "DESIGN.md §4 C38"),
 }
 
